@@ -20,9 +20,9 @@ Section NoUrl.
   Variable elem : bytes.
   Variable aps : amap (list (attr_policy M)).
 
-  Notation Fa := (filter_attr I p elem aps false).
+  Notation Fa := (filter_attr I p elem aps (has_style_policies I p elem)).
 
-  Hypothesis Hstyle : has_style_policies I p elem = false.
+  Hypothesis Hstyle : style_stable M U R I p elem.
   Hypothesis Hnosandbox : forall l, sandbox_pass p elem l = l.
   Hypothesis Hnocross : forall l, crossorigin_pass p elem l = l.
 
@@ -65,7 +65,7 @@ Section NoUrl.
     no_url_attr (sanitize_attrs I p elem attrs aps) ->
     sanitize_attrs I p elem (sanitize_attrs I p elem attrs aps) aps = sanitize_attrs I p elem attrs aps.
   Proof.
-    pose proof (sanitize_attrs_unfold M U R I p elem aps Hstyle Hnosandbox) as Unf.
+    pose proof (sanitize_attrs_unfold M U R I p elem aps Hnosandbox) as Unf.
     rewrite (Unf attrs). destruct attrs as [|a0 ar]; [reflexivity|].
     remember (flat_map Fa (a0 :: ar)) as c0 eqn:Ec0.
     assert (S0 : Forall (kept M U R I p elem aps) c0) by (subst c0; apply F_kept; exact Hstyle).
